@@ -8,6 +8,7 @@ import (
 	"io"
 	"testing"
 
+	"github.com/klauspost/compress/zstd"
 	"pgregory.net/rapid"
 	"verifharness/mc"
 	"verifharness/pk"
@@ -45,7 +46,7 @@ func genC07(t *rapid.T) C07Case {
 // judgeCorrupted applies the C07 oracle to one corrupted read.
 // T/Tsig: events of the intact file; firstIdx: index in T of the damaged chunk's first record;
 // afterIdx: index in T of the first event after the damaged chunk.
-func judgeCorrupted(label string, base []mc.Event, Tsig []uint64, res *mc.LexResult, firstIdx, afterIdx int, mustDetect bool, st *stats.Collector) (detected bool, err error) {
+func judgeCorrupted(label string, base []mc.Event, Tsig []uint64, res *mc.LexResult, firstIdx, afterIdx int, mustDetect bool, surplus func() bool, st *stats.Collector) (detected bool, err error) {
 	if res.Panic != "" {
 		return false, pk.Failf("panic", "%s: %s", label, res.Panic)
 	}
@@ -93,7 +94,11 @@ func judgeCorrupted(label string, base []mc.Event, Tsig []uint64, res *mc.LexRes
 	if report > firstIdx {
 		st.Note("reported-after-the-damaged-chunk's-own-original-records")
 	}
-	// observation only: what follows an invalid-chunk token when the caller keeps reading
+	// After an invalid-chunk token the caller may keep reading (that is what the token is for). Whatever
+	// is handed out then must still be data that was written: records of the original file that follow
+	// the damaged chunk, in order. Omissions are tolerated (the statement does not promise recovery);
+	// a record that is not one of those - in particular anything decoded from the damaged chunk - is
+	// corrupted data read back as good data.
 	if report < len(got) && got[report].Kind == "invalidchunk" {
 		rest := got[report+1:]
 		same := len(rest) == len(Tsig)-afterIdx
@@ -105,10 +110,49 @@ func judgeCorrupted(label string, base []mc.Event, Tsig []uint64, res *mc.LexRes
 		if same {
 			st.Note("after-invalid-chunk-token:rest-of-file-intact")
 		} else {
-			st.Note("after-invalid-chunk-token:stream-deviates-from-original-suffix")
+			j := 0
+			foreign := -1
+			for i := range rest {
+				if rest[i].Kind == "error" || rest[i].Kind == "invalidchunk" {
+					continue
+				}
+				sg := mc.Sig(&rest[i])
+				for afterIdx+j < len(Tsig) && Tsig[afterIdx+j] != sg {
+					j++
+				}
+				if afterIdx+j >= len(Tsig) {
+					foreign = i
+					break
+				}
+				j++
+			}
+			if foreign < 0 {
+				st.Note("after-invalid-chunk-token:later-records-omitted")
+			} else if pk.Open("C07", "zstd-surplus-after-invalid-chunk-token") && surplus != nil && surplus() {
+				st.KnownFinding("zstd-surplus-after-invalid-chunk-token", pk.What("C07", "zstd-surplus-after-invalid-chunk-token"))
+			} else {
+				return true, pk.Failf("corrupt-after-report", "%s: after the invalid-chunk token the lexer handed out %s, which is not a record of the original file after the damaged chunk (records #%d.. of the original)", label, pk.Short(rest[foreign]), afterIdx)
+			}
 		}
 	}
 	return true, nil
+}
+
+// zstdSurplus reports (lazily) whether a stored zstd payload decodes, as a stream, to more bytes than
+// the chunk declares - the trigger of the open finding "zstd-surplus-after-invalid-chunk-token".
+func zstdSurplus(payload []byte, r *specdec.Record) func() bool {
+	return func() bool {
+		if r.Compression != "zstd" {
+			return false
+		}
+		dec, err := zstd.NewReader(bytes.NewReader(payload))
+		if err != nil {
+			return false
+		}
+		defer dec.Close()
+		n, _ := io.Copy(io.Discard, dec)
+		return uint64(n) > r.UncompressedSize
+	}
 }
 
 func checkC07(c C07Case, st *stats.Collector) error {
@@ -161,7 +205,7 @@ func checkC07(c C07Case, st *stats.Collector) error {
 					res := mc.LexAll(bytes.NewReader(work), lp, false)
 					evals++
 					label := fmt.Sprintf("chunk %d (%q) byte %d bit %d, emitInvalid=%v", ci, r.Compression, pos-lo, bit, mi == 1)
-					det, err := judgeCorrupted(label, base.Events, T, &res, ch.first, ch.after, r.Compression == "", st)
+					det, err := judgeCorrupted(label, base.Events, T, &res, ch.first, ch.after, r.Compression == "", zstdSurplus(work[lo:hi], r), st)
 					if err != nil {
 						work[pos] ^= 1 << bit
 						return err
@@ -210,7 +254,7 @@ func checkC07(c C07Case, st *stats.Collector) error {
 			res := mc.LexAll(bytes.NewReader(work), lp, false)
 			evals++
 			label := fmt.Sprintf("chunk (%q) multi-byte op %+v, emitInvalid=%v", r.Compression, op, mi == 1)
-			if _, err := judgeCorrupted(label, base.Events, T, &res, ch.first, ch.after, false, st); err != nil {
+			if _, err := judgeCorrupted(label, base.Events, T, &res, ch.first, ch.after, false, zstdSurplus(work[lo:lo+n], r), st); err != nil {
 				return err
 			}
 		}
